@@ -432,6 +432,15 @@ var c17GenEffects = []struct{ tag, expr string }{
 	{"pr", "priority(p.eft) || deny"},
 }
 
+func c17Keys(m map[string][]string) []string {
+	var ks []string
+	for k := range m {
+		ks = append(ks, k)
+	}
+	sort.Strings(ks)
+	return ks
+}
+
 func c17Pick(rng *rand.Rand, xs []string) string { return xs[rng.Intn(len(xs))] }
 
 // c17Generate draws a model kind, an effect, an optional eft column, a policy and links.
@@ -463,11 +472,12 @@ func c17Generate(rng *rand.Rand, n int) *c17Spec {
 	if err := s.derive(); err != nil {
 		panic(fmt.Sprint("generated model does not parse: ", err, "\n", text))
 	}
-	for f, vs := range k.reqOnly {
-		s.extra[f] = append(s.extra[f], vs...)
+	// (sorted keys: the run must be a function of the seed)
+	for _, f := range c17Keys(k.reqOnly) {
+		s.extra[f] = append(s.extra[f], k.reqOnly[f]...)
 	}
-	for f, vs := range k.cols { // the column pools double as request pools
-		s.extra[f] = append(s.extra[f], vs...)
+	for _, f := range c17Keys(k.cols) { // the column pools double as request pools
+		s.extra[f] = append(s.extra[f], k.cols[f]...)
 	}
 	// policy
 	nr := rng.Intn(7)
